@@ -92,8 +92,13 @@ CLAIMED['C12'] = dict(
          'cross-chain text (chains with different prefixes), every witness version 1..16, Base58Check payload lengths 0..34 with known/symbolic version bytes and arbitrary short strings are '
          'refused with CBitcoinAddressError (exposed the AssertionError and the payload-length defects, both fixed; bare uncompressed pubkey is a recorded known finding).',
     note='base58 text is an opaque object in the symbolic run (compositional with C10); mutual exclusivity of the two text formats assumed (2^-32); hashes uninterpreted.')
+CLAIMED['C14'] = dict(
+    text=_T + 'REDUCED SCOPE: the message digest equals double-SHA256 of varstr(magic) || varstr(UTF-8(message)) for symbolic text over all of Unicode (0..3/4 code points, and 252/253/300-byte messages); '
+         'SignMessage output is base64 of 65 bytes whose header is 27 + recid + 4*compressed for a symbolic recid and (r,s); VerifyMessage passes r, s, digest, recid and the compression flag to recovery '
+         'and returns true iff the recovered key hashes to the given address. The concrete twin (witness validation / replay) runs the real OpenSSL path: sign, verify for the signer, reject other address / other message.',
+    note='that recovery of a genuine signature returns the signer key is an ASSUMPTION of the symbolic run (OpenSSL behind ctypes, not decidable here); see DESIGN.md section 6.')
 _UC = 'check not built yet in this round (engine exists; harness pending) - will be claimed or declared not applicable with its real reason'
-for _i in ['C05','C14','C19']:
+for _i in ['C05','C19']:
     NA[_i] = _UC
 NA['C13'] = ('key derivation, signing, verification and point validity are computed by OpenSSL through ctypes: there is no Python or IR to execute '
              'symbolically, and the reference (secp256k1 group law, 256-bit modular inversion) is non-linear 256-bit arithmetic out of reach of z3/cvc5')
